@@ -1,8 +1,8 @@
 (* C02 on the second-generation Session model.  Operation-by-operation preservation for the two-mode operations is in
-   LC02.v (against the strong form of the invariant, LInvS.v); lifted here to the model's runs for histories without
-   hard write failures (Calm.v). *)
+   LC02.v; here the operations on a dead socket (Fail.v) are added and the relation is lifted over every conforming
+   history, hard write failures included (Full.v). *)
 From PahoV Require Import Base.Prelude Codec.Mid Codec.MidProofs Session2.Model Session2.Check Session2.Statements
-  Session2.Bridge Session2.Calm Session2.LLemmas Session2.LInvS Session2.LC02.
+  Session2.Bridge Session2.Fail Session2.LLemmas Session2.LInv Session2.Inv Session2.Full Session2.LC02.
 From PahoV Require Session2.Legacy.
 
 Lemma R_init c : LC02.R c (init c) k02_init.
@@ -10,13 +10,220 @@ Proof.
   constructor; cbn; try reflexivity; try discriminate; try (intros m []); try constructor.
 Qed.
 
-Theorem c02_calm_proved : C02_calm_stmt.
+Section Dup3.
+Variable c : cfg.
+Hypothesis Hcfg : cfg_ok c = true.
+Notation opf := (k02_op (pers c)).
+Notation kev := (k02_ev (pers c)).
+
+Lemma k02_eta k : mkK02 (k2_live k) (k2_h1 k) (k2_h2 k) (k2_sent k) (k2_rec k) (k2_blk k) (k2_ok k) = k.
+Proof. destruct k. reflexivity. Qed.
+
+Lemma existsb_snoc {A} (f : A -> bool) l x : existsb f (l ++ [x]) = existsb f l || f x.
+Proof. rewrite existsb_app. cbn [existsb]. rewrite orb_false_r. reflexivity. Qed.
+
+(* the loss of the connection at the end of an operation, judged as an operation of its own *)
+Lemma split02 s1 k ev1 : LC02.R c s1 (opf k ev1) -> opf k (ev1 ++ [SockLost]) = opf (opf k ev1) [SockLost].
 Proof.
-  intros c ops Hcfg Hc Hn. unfold c02_ok, optrace.
-  destruct (lift_calm c (LInvS.Inv c) (LInvS.inv_step c Hcfg) k02 (k02_op (pers c)) (LC02.R c)
-              (fun s o k Hi Hcf HR => LC02.step_R c s k o Hcfg Hi Hcf HR) ops (init c) k02_init (LInvS.inv_init c) eq_refl Hn Hc (R_init c))
+  intros HR. pose proof (r_ok _ _ _ HR) as Hok.
+  assert (E2 : opf (opf k ev1) [SockLost] = opf k ev1).
+  { unfold k02_op at 1. cbn [existsb is_connack0 fold_left k02_ev]. rewrite andb_false_r. reflexivity. }
+  rewrite E2. clear E2. unfold k02_op in Hok |- *. rewrite !existsb_snoc. cbn [is_socklost is_connack0]. rewrite orb_true_r, orb_false_r. cbn [negb].
+  rewrite andb_false_r. rewrite fold_left_app. cbn [fold_left k02_ev].
+  destruct (pers c && existsb is_connack0 ev1 && negb (existsb is_socklost ev1)); [|reflexivity].
+  cbn [k2_ok] in Hok. apply andb_true_iff in Hok as [H1 H2]. rewrite H2, andb_true_r. symmetry. apply k02_eta.
+Qed.
+
+Lemma R02_sf s b k : LC02.R c s k -> LC02.R c (set_failing s b) k.
+Proof. intros H. apply (R_ext c s); try reflexivity; try lia. exact H. Qed.
+
+Lemma R02_lost s k : LC02.R c s k -> LC02.R c (lost s) k.
+Proof. intros H. apply (R_down c s); try reflexivity; try (intros Hf; exact Hf); [cbn; apply andb_false_r | exact H]. Qed.
+
+(* publish(qos=0) on a dead socket: for this checker the two-mode operation (the result code of a QoS 0 publish is
+   not looked at), then the loss *)
+Lemma d3_pub0 s k : Inv c s -> dead s -> LC02.R c s k ->
+  LC02.R c (fst (do_publish c s 0)) (opf k (snd (do_publish c s 0))).
+Proof.
+  intros I Hd HR. pose proof Hd as (Hs & _ & _).
+  pose proof (LC02.step_R c s k (Legacy.OPublish 0) Hcfg I eq_refl HR) as HL. cbn [Legacy.step] in HL.
+  assert (E : snd (Legacy.do_publish c s 0) =
+              [Handed (conn s) (PPublish (mid_next (last_mid s)) 0 false (ntag s)); Ret (ntag s) (mid_next (last_mid s)) 0 0]).
+  { unfold Legacy.do_publish. cbv zeta. cbn [Z.eqb]. rewrite Hs.
+    set (s1 := mkS _ _ _ _ _ _ _ _ _ _ _ _).
+    assert (Hc1 : Legacy.can_write s1 = false) by (destruct Hd as (_ & _ & Hb); unfold Legacy.can_write; cbn; rewrite Hb; reflexivity).
+    rewrite (legacy_send_blocked s1 _ Hc1). reflexivity. }
+  rewrite E in HL. rewrite (publish0_dead c s Hd). cbn [fst snd].
+  assert (Ek : opf k [Handed (conn s) (PPublish (mid_next (last_mid s)) 0 false (ntag s)); SockLost;
+                      Ret (ntag s) (mid_next (last_mid s)) 0 7] =
+               opf k [Handed (conn s) (PPublish (mid_next (last_mid s)) 0 false (ntag s)); Ret (ntag s) (mid_next (last_mid s)) 0 0])
+    by (rewrite !k02_op_plain by reflexivity; reflexivity).
+  rewrite Ek. apply R02_lost. exact HL.
+Qed.
+
+(* publish(qos>0) on a dead socket: for the checker, publish() without a socket after the loss, plus the hand-over of
+   a PUBLISH with a fresh tag and DUP = 0, which stays in the queue until reconnect() drops it *)
+Lemma d3_pubw s q k : Inv c s -> dead s -> pub_wrote c s q = true -> conf_op c s (OPublish q) = true -> LC02.R c s k ->
+  LC02.R c (fst (do_publish c s q)) (opf k (snd (do_publish c s q))).
+Proof.
+  intros I Hd Hw Hconf HR. pose proof Hd as (Hs & _ & _).
+  assert (Hq0 : (q =? 0) = false) by (unfold pub_wrote in Hw; destruct (q =? 0); [discriminate|reflexivity]).
+  assert (Hqpos : (q >? 0) = true) by (cbn [conf_op] in Hconf; lia).
+  pose proof (LC02.step_R c (lost s) k (Legacy.OPublish q) Hcfg (inv_lost c s I) Hconf (R02_lost s k HR)) as H2. cbn [Legacy.step] in H2.
+  destruct (legacy_publish_offline_wrote c (lost s) q eq_refl Hw) as (so & Eo & Eout & En & Eq & Hso). rewrite Eo in H2. cbn [fst snd] in H2.
+  rewrite (publish_dead_wrote c s q Hd Hw), Eo. cbn [fst snd].
+  pose proof (fresh_h1 _ _ _ HR) as Fh. pose proof (fresh_sent _ _ _ HR) as Fs.
+  cbn [lost with_sock ntag last_mid outq out] in *.
+  set (tag := ntag s) in *. set (mid := mid_next (last_mid s)) in *.
+  (* the checker's state: that of the offline publish(), with the fresh tag added to the handed-over set *)
+  assert (Ek : opf k [Handed (conn s) (PPublish mid q false tag); SockLost; Ret tag mid q 4] =
+               let k0 := opf k [Ret tag mid q 4] in
+               mkK02 (k2_live k0) (zadd tag (k2_h1 k)) (k2_h2 k0) (k2_sent k0) (k2_rec k0) (k2_blk k0) (k2_ok k0)).
+  { rewrite !k02_op_plain by reflexivity. cbn [fold_left k02_ev]. rewrite Fh, Hqpos. cbn [andb orb negb Z.eqb k2_ok k2_live k2_h1 k2_h2 k2_sent k2_rec k2_blk].
+    rewrite !andb_true_r. reflexivity. }
+  rewrite Ek. cbv zeta. clear Ek.
+  assert (Eh : k2_h1 (opf k [Ret tag mid q 4]) = k2_h1 k).
+  { rewrite k02_op_plain by reflexivity. cbn [fold_left k02_ev]. rewrite Hqpos. reflexivity. }
+  destruct H2 as [H1 H2 H3 H4 H5 H6 H7 H8 H9 H10 H11 H12 H13 H14]. rewrite Eh in H3, H4.
+  constructor; cbn [k2_ok k2_live k2_h1 k2_h2 k2_sent k2_rec k2_blk out ntag sock cack first outq blocked with_q]; try assumption.
+  - intros m Hm Hsn. rewrite zin_zadd, (H3 m Hm Hsn). apply orb_true_r.
+  - intros t Ht. rewrite zin_zadd in Ht. apply orb_true_iff in Ht as [Ht|Ht]; [rewrite En; lia | exact (H4 t Ht)].
+  - apply Forall_app. split.
+    + rewrite Eq in H11. eapply Forall_impl; [|exact H11]. intros y. unfold pk_inv. destruct (q_pkt y); exact (fun a => a).
+    + constructor; [|constructor]. unfold pk_inv. cbn [q_pkt]. split; [|split].
+      * intros Hz. exfalso. specialize (H5 tag Hz). rewrite En in H5.
+        assert (Hz' : zin tag (k2_sent k) = true).
+        { revert Hz. rewrite k02_op_plain by reflexivity. cbn [fold_left k02_ev]. rewrite Hqpos. cbn [andb orb Z.eqb k2_sent]. exact (fun a => a). }
+        congruence.
+      * discriminate.
+      * intros E0. lia.
+  - rewrite pubtags_app. cbn. apply NoDup_app_snoc; [rewrite Eq in H12; exact H12|].
+    intros Hin. rewrite Eq in H14. specialize (H14 tag Hin).
+    pose proof (r_qlt _ _ _ HR tag Hin). unfold tag in *. lia.
+  - intros t Ht. rewrite pubtags_app in Ht. apply in_app_or in Ht as [Ht|Ht]; [rewrite Eq in H14; exact (H14 t Ht)|].
+    cbn in Ht. destruct Ht as [<-|[]]. rewrite En. lia.
+Qed.
+
+(* the accepting CONNACK on a dead socket *)
+Lemma d3_connack s r k : Inv c s -> dead s -> cack s = false -> LC02.R c s k ->
+  LC02.R c (fst (do_rx c s (IConnack 0) r)) (opf k (snd (do_rx c s (IConnack 0) r))).
+Proof.
+  intros I Hd Hck HR. pose proof Hd as (Hs & _ & _).
+  assert (Hconf : Legacy.conf_op c s (Legacy.ORx (IConnack 0) r) = true) by (cbn [Legacy.conf_op]; rewrite Hs, Hck; reflexivity).
+  pose proof (LC02.step_R c s k (Legacy.ORx (IConnack 0) r) Hcfg I Hconf HR) as HL. cbn [Legacy.step] in HL.
+  destruct (connack_dead_cases c s r Hd) as [E|[(sd & E & Hsd & Eo & Eq & En & Hckd & Hfd)|(sd & l1 & m & l2 & x & rest & E & Hsd & So & Eo & Eq & En & Ex & _ & Hckd & Hfd)]].
+  - rewrite E. exact HL.
+  - (* the loop stopped at a loop_write() on a non-empty queue: nothing was handed over *)
+    rewrite E. cbn [fst snd].
+    assert (Ek : opf k [Inp (IConnack 0); SockLost] = k).
+    { unfold k02_op. cbn [existsb is_socklost orb negb]. rewrite andb_false_r. reflexivity. }
+    rewrite Ek. apply (R_down c s); try assumption. rewrite Hfd. discriminate.
+  - (* it stopped after handing over the packet of the first message that needed one *)
+    rewrite E. cbn [fst snd].
+    assert (Hm : In m (out s)) by (rewrite So; apply in_or_app; right; left; reflexivity).
+    pose proof (inv_qos_ok _ _ _ I Hm) as Hqo. pose proof (qos_pos m Hqo) as Hqpos.
+    pose proof (inv_nodup_tags _ _ I) as Hnd. pose proof (inv_tag_lt _ _ _ I Hm) as Htl.
+    assert (Ek0 : opf k [Inp (IConnack 0); Handed (conn s) (q_pkt x); SockLost] = kev k (Handed (conn s) (q_pkt x))).
+    { unfold k02_op. cbn [existsb is_socklost orb negb]. rewrite ?orb_true_r. cbn [negb]. rewrite ?andb_false_r. destruct (q_pkt x); reflexivity. }
+    rewrite Ek0. clear Ek0.
+    assert (Hsub : forall y, In y (out sd) -> y = cl1 m \/ (In y (out s) /\ y <> m)).
+    { intros y Hy. rewrite Eo in Hy. apply in_app_or in Hy as [Hy|[Hy|Hy]].
+      - right. split; [rewrite So; apply in_or_app; left; exact Hy|]. intros ->.
+        rewrite So in Hnd. unfold tags in Hnd. rewrite map_app in Hnd. cbn [map] in Hnd.
+        apply NoDup_remove_2 in Hnd. apply Hnd. apply in_or_app. left. apply in_map. exact Hy.
+      - left. symmetry. exact Hy.
+      - right. split; [rewrite So; apply in_or_app; right; right; exact Hy|]. intros ->.
+        rewrite So in Hnd. unfold tags in Hnd. rewrite map_app in Hnd. cbn [map] in Hnd.
+        apply NoDup_remove_2 in Hnd. apply Hnd. apply in_or_app. right. apply in_map. exact Hy. }
+    assert (Htg : tags (out sd) = tags (out s)).
+    { rewrite Eo, So. unfold tags. rewrite !map_app. cbn [map]. rewrite cl1_tag. reflexivity. }
+    assert (Hlm : map lm (out sd) = map lm (out s)).
+    { rewrite Eo, So, !map_app. cbn [map]. rewrite lm_cl1. reflexivity. }
+    (* the two kinds of packet *)
+    unfold cl_pk in Ex. destruct (o_st m) eqn:Est; try discriminate.
+    + (* PUBLISH of a message in state publish *)
+      inversion Ex; subst x. clear Ex. cbn [q_pkt pub_pkt].
+      assert (Hp : isPub m = true) by (unfold isPub; rewrite Est; reflexivity).
+      assert (Hc1 : cl1 m = set_st m (wait_of (o_qos m))) by (unfold cl1; rewrite Est; reflexivity).
+      destruct (msg_hc c s k m I HR Hm (or_introl Hp)) as (Hrec & Hd1 & Hsent & _).
+      cbn [rel_pk pub_pkt q_pkt] in Hrec, Hd1, Hsent.
+      assert (Eok : k2_ok (kev k (Handed (conn s) (PPublish (o_mid m) (o_qos m) (o_dup m) (o_tag m)))) = true).
+      { cbn [k02_ev k2_ok]. rewrite (r_ok _ _ _ HR). replace (o_qos m >? 0) with true by lia. cbn [andb orb].
+        destruct (o_dup m); [rewrite (Hd1 eq_refl)|rewrite orb_true_r]; reflexivity. }
+      cbn [k02_ev k2_ok] in Eok.
+      destruct HR as [H1 H2 H3 H4 H5 H6 H7 H8 H9 H10 H11 H12 H13 H14].
+      constructor; unfold pub_pkt; cbn [q_pkt k02_ev k2_ok k2_live k2_h1 k2_h2 k2_sent k2_rec k2_blk]; rewrite ?Hsd, ?Hckd, ?En, ?Htg, ?Hlm; try assumption; try discriminate.
+      * intros y Hy Hsn. rewrite zin_zadd. destruct (Hsub y Hy) as [->|[Hy' _]].
+        -- rewrite cl1_tag, Z.eqb_refl. reflexivity.
+        -- rewrite (H3 y Hy' Hsn). apply orb_true_r.
+      * intros t0 Ht0. rewrite zin_zadd in Ht0. apply orb_true_iff in Ht0 as [Ht0|Ht0]; [lia | exact (H4 t0 Ht0)].
+      * intros y Hy Hst Hz. destruct (Hsub y Hy) as [->|[Hy' _]].
+        -- exfalso. rewrite Hc1 in Hst. destruct Hst as [Hst|Hst]; revert Hst; unfold isPub, is_queued, set_st, wait_of; cbn [o_st];
+             destruct (o_qos m =? 1); discriminate.
+        -- exact (H6 y Hy' Hst Hz).
+      * intros Hc t0 Ht0. destruct (H7 Hc t0 Ht0) as (y & Hy & Ety & Hqy & Hrc & _).
+        assert (Hym : y <> m) by (intros ->; revert Hrc; unfold isrec; rewrite Est; discriminate).
+        exists y. split.
+        { rewrite Eo. rewrite So in Hy. apply in_app_or in Hy as [Hy|[Hy|Hy]];
+            [apply in_or_app; left; exact Hy | exfalso; apply Hym; symmetry; exact Hy | apply in_or_app; right; right; exact Hy]. }
+        repeat split; try assumption. intros Hx. discriminate.
+      * intros Hc Hf. rewrite Hfd in Hf. discriminate.
+      * rewrite Eq. apply Forall_app. split.
+        -- eapply Forall_impl; [|exact H11]. intros y. unfold pk_inv. destruct (q_pkt y) as [|mi qs dd tt| | | |]; try exact (fun a => a).
+           cbn [k2_sent k2_h2]. rewrite Htg, En. intros (P1 & P2 & P3). split; [exact P1|]. split; [|exact P3].
+           intros Hdd. specialize (P2 Hdd). destruct (zin (o_tag m) (k2_h1 k)); [rewrite zin_zadd, P2; apply orb_true_r | exact P2].
+        -- constructor; [|constructor]. unfold pk_inv. cbn [q_pkt k2_sent k2_h2]. split; [exact Hsent|]. split.
+           ++ intros Hdd. rewrite (Hd1 Hdd), zin_zadd, Z.eqb_refl. reflexivity.
+           ++ intros E0. lia.
+      * rewrite Eq, pubtags_app. cbn. apply NoDup_app_snoc; [exact H12|].
+        intros Hin. unfold pubtags in Hin. apply in_flat_map in Hin as (y & Hy & Hty). unfold pubtag in Hty.
+        destruct (q_pkt y) as [|mi qs dd tt| | | |] eqn:Ey; try (destruct Hty; fail). destruct Hty as [Et|[]]. subst tt.
+        destruct (Z.eq_dec qs 0) as [E0|E0].
+        -- pose proof (proj1 (Forall_forall _ _) H11 y Hy) as Hpk. unfold pk_inv in Hpk. rewrite Ey in Hpk.
+           destruct Hpk as (_ & _ & P3). destruct (P3 E0) as (_ & B & _). apply B. unfold tags. apply in_map. exact Hm.
+        -- pose proof (proj1 (Forall_forall _ _) (inv_q _ _ I Hs) y Hy) as Hok. unfold qpkt_ok in Hok. rewrite Ey in Hok.
+           destruct (Hok E0) as (w & Hw & _ & Etw & _ & _ & Hstw).
+           assert (w = m) by (eapply tag_inj; [exact Hnd | exact Hw | exact Hm | exact Etw]). subst w.
+           rewrite Est in Hstw. unfold wait_of in Hstw. destruct (qs =? 1); discriminate.
+      * intros t0 Ht0. rewrite Eq, pubtags_app in Ht0. apply in_app_or in Ht0 as [Ht0|Ht0]; [exact (H14 t0 Ht0)|].
+        cbn in Ht0. destruct Ht0 as [<-|[]]. lia.
+    + (* PUBREL of a message in state resend_pubrel: the checker sees nothing *)
+      destruct (o_qos m =? 2) eqn:Eq2; [|discriminate]. inversion Ex; subst x. clear Ex. cbn [q_pkt rel_pkt k02_ev].
+      assert (Hc1 : cl1 m = set_st m MsWaitPubcomp) by (unfold cl1; rewrite Est, Eq2; reflexivity).
+      assert (Hsm : snt m = true) by (unfold snt, is_wait; rewrite Est; reflexivity).
+      destruct HR as [H1 H2 H3 H4 H5 H6 H7 H8 H9 H10 H11 H12 H13 H14].
+      constructor; rewrite ?Hsd, ?Hckd, ?En, ?Htg, ?Hlm; try assumption; try discriminate.
+      * intros y Hy Hsn. destruct (Hsub y Hy) as [->|[Hy' _]]; [rewrite cl1_tag; exact (H3 m Hm Hsm) | exact (H3 y Hy' Hsn)].
+      * intros y Hy Hst Hz. destruct (Hsub y Hy) as [->|[Hy' _]].
+        -- exfalso. rewrite Hc1 in Hst. destruct Hst as [Hst|Hst]; revert Hst; unfold isPub, is_queued, set_st; cbn [o_st]; discriminate.
+        -- exact (H6 y Hy' Hst Hz).
+      * intros Hc t0 Ht0. destruct (H7 Hc t0 Ht0) as (y & Hy & Ety & Hqy & Hrc & _).
+        destruct (Z.eq_dec (o_tag y) (o_tag m)) as [Etm|Hnt].
+        -- assert (y = m) by (eapply tag_inj; [exact Hnd | exact Hy | exact Hm | exact Etm]). subst y.
+           exists (cl1 m). split; [rewrite Eo; apply in_or_app; right; left; reflexivity|].
+           rewrite cl1_tag, cl1_qos. repeat split; try assumption; [apply rec_cl1; exact Hrc | intros Hx; discriminate].
+        -- exists y. split.
+           { rewrite Eo. rewrite So in Hy. apply in_app_or in Hy as [Hy|[Hy|Hy]];
+               [apply in_or_app; left; exact Hy | exfalso; apply Hnt; rewrite Hy; reflexivity | apply in_or_app; right; right; exact Hy]. }
+           repeat split; try assumption. intros Hx. discriminate.
+      * intros Hc Hf. rewrite Hfd in Hf. discriminate.
+      * rewrite Eq. apply Forall_app. split; [|repeat constructor].
+        eapply Forall_impl; [|exact H11]. intros y. unfold pk_inv. destruct (q_pkt y); try exact (fun a => a). rewrite Htg, En. exact (fun a => a).
+      * rewrite Eq, pubtags_app. cbn. rewrite app_nil_r. exact H12.
+      * intros t0 Ht0. rewrite Eq, pubtags_app in Ht0. cbn in Ht0. rewrite app_nil_r in Ht0. exact (H14 t0 Ht0).
+Qed.
+
+End Dup3.
+
+(* EVERY conforming history, hard write failures included *)
+Theorem c02_proved : C02_stmt.
+Proof.
+  intros c ops Hcfg Hc. unfold c02_ok, optrace.
+  destruct (lift_full c Hcfg k02 (k02_op (pers c)) (LC02.R c) (split02 c)
+              (fun s o k Hi Hcf HR => LC02.step_R c s k o Hcfg Hi Hcf HR) (R02_sf c)
+              (d3_pub0 c Hcfg) (d3_pubw c Hcfg) (d3_connack c Hcfg) ops (init c) k02_init (inv3_init c) Hc (R_init c))
     as (s' & H).
   exact (r_ok _ _ _ H).
 Qed.
 
-Print Assumptions c02_calm_proved.
+Print Assumptions c02_proved.
